@@ -13,7 +13,7 @@ class VFixture:
 
     def __init__(self, rows, name, names=("ctl", "A", "b", "é")):
         self.rows, self.name, self.tn = rows, name, names
-        self.ci, self.ki, self.pi, self.ii = Interner(), Interner(), Interner(), Interner()
+        self.ci, self.ki, self.pi, self.ii, self.ei = Interner(), Interner(), Interner(), Interner(), Interner()
 
     def screen(self):
         tn = np.array([[self.tn[t] for t in r[1]] for r in self.rows], dtype=str)
@@ -37,6 +37,15 @@ class VFixture:
             ids.append(self.ii((int(s.sample_ids[i]), tuple(int(x) for x in s.treatment_ids[i]), int(s.plate_ids[i]))))
             pid.append(int(s.plate_ids[i]))
         return c, k, pid, ids
+
+    def ste_tokens(self, s):
+        """per-row tokens of the derived per-experiment attribute single_treatment_effects (0 when it is not available)"""
+        st, a = outcome(lambda: s.single_treatment_effects)
+        if st != "ok":
+            return [9999] * s.size
+        if a is None:
+            return [0] * s.size
+        return [self.ei(tuple(bits(x) for x in np.ravel(a[i]))) for i in range(s.size)]
 
     def to_json(self):
         s = self.screen()
@@ -66,7 +75,7 @@ class VWorld:
         for v in self.pool:
             sel = [i + 1 for i, b in enumerate(v.selection_vector) if b]
             c, k, pid, ids = self.fx.tokens(v)
-            out.append({"par": self.par_index(v), "sel": sel, "c": c, "i": ids})
+            out.append({"par": self.par_index(v), "sel": sel, "c": c, "i": ids, "e": self.fx.ste_tokens(v)})
         return out
 
     def do(self, e):
@@ -119,6 +128,7 @@ class VWorld:
                       ("newc", []), ("newk", []), ("newmask", []), ("newpid", []), ("newids", [])):
             ev.setdefault(k_, d)
         ev["pool"] = self.proj()
+        ev["pste"] = [self.fx.ste_tokens(p) for p in self.parents]
         self.events.append(ev)
         return True
 
@@ -129,6 +139,8 @@ def fixtures(rnd, nrand):
         VFixture([(0, (1, 0), 0, 0), (0, (0, 2), 0, 0), (0, (1, 0), 1, 1), (0, (3, 0), 1, 1)], "controls-and-neighbours"),
         VFixture([(0, (1, 1), 0, 0), (1, (1, 1), 0, 0), (1, (1, 1), 0, 0), (1, (1, 1), 0, 0)], "one-plate-all-unobserved"),
         VFixture([(0, (2, 3), 0, 1), (1, (2, 3), 1, 1), (2, (2, 3), 2, 1), (0, (2, 3), 2, 1)], "all-observed"),
+        # a combination with replicated single-agent experiments: the derived single-agent effects are defined for every row
+        VFixture([(0, (1, 2), 0, 1), (0, (1, 0), 0, 1), (0, (0, 2), 1, 0), (0, (1, 0), 1, 0)], "single-agent-replicates"),
     ]
     for i in range(nrand):
         n = rnd.randint(3, 5)
